@@ -78,6 +78,12 @@ C09_Converged(o) == o.q => ObsAnnounced(o) = Fresh(Cluster(o), RankOf(o))
 (* for the record: the fresh speaker that was actually started on the final *)
 (* state, against the specification's Fresh and against the old speaker     *)
 C09_FreshModel(o) == o.q => ObsAnnounced(o.fresh) = Fresh(Cluster(o), RankOf(o))
+(* how the fresh speaker that was started differs from the specification's Fresh *)
+L2Keys(x) == {[s |-> e.s, ip |-> e.ip] : e \in x.l2}
+FreshKinds(o) ==
+  LET a == ObsAnnounced(o.fresh)  b == Fresh(Cluster(o), RankOf(o)) IN
+  (IF L2Keys(a) # L2Keys(b) THEN {"l2-set"} ELSE IF a.l2 # b.l2 THEN {"l2-scope"} ELSE {}) \cup
+  (IF a.sess # b.sess THEN {"bgp"} ELSE {})
 C09_SameAsObservedFresh(o) == o.q => ObsAnnounced(o) = ObsAnnounced(o.fresh)
 C09_Drains(o) == o.op = "Drained" => (o.q \/ o.cfgQ)
 
@@ -95,6 +101,7 @@ Init == i = 1
 Next == i < N /\ i' = i + 1
 Judge ==
   LET f == Fails(i) IN
-  /\ (f = {} \/ PrintT(ToJson([fails |-> f, line |-> i, w |-> Trace[i].w, step |-> Trace[i].n])))
+  /\ (f = {} \/ PrintT(ToJson([fails |-> f, line |-> i, w |-> Trace[i].w, step |-> Trace[i].n,
+                                fm |-> IF "C09.FreshModel" \in f THEN FreshKinds(Trace[i]) ELSE {}])))
   /\ (i < N \/ PrintT(ToJson([done |-> N])))
 =============================================================================
